@@ -308,11 +308,63 @@ func negLit(l string) string {
 	return "!" + l
 }
 
-// sentinelGuards finds the guards that decide whether fn returns sentinel.
+// sentinelGuards finds the guards that decide whether fn returns sentinel: the conditions under which fn itself
+// returns it, and — so that moving a block of checks, unchanged, into a helper `if err := d.checkX(v); err != nil {
+// return err }` changes no verdict — the conditions under which a directly called module function returns it, when
+// that call's error is tested by fn (the guard is then passed on the call's success edges). The callee's conditions are
+// rendered with its parameters replaced by the arguments of the call (one level of calls).
 func sentinelGuards(fn *ssa.Function, sentinel string) []Guard {
 	var out []Guard
 	for _, r := range returnsOfGlobal(fn, sentinel) {
 		out = append(out, guardsInto(r.Block())...)
+	}
+	if len(out) > 0 {
+		return out
+	}
+	for _, call := range callsIn(fn) {
+		if _, isDefer := call.(*ssa.Defer); isDefer {
+			continue
+		}
+		h := call.Common().StaticCallee()
+		if h == nil || h == fn || h.Blocks == nil || !inModule(fpkgPath(h)) || errValues(call) == nil {
+			continue
+		}
+		if len(returnsOfGlobal(h, sentinel)) == 0 {
+			continue
+		}
+		se, ok := SuccessEdges(call)
+		fe, ok2 := FailEdges(call)
+		if !ok || !ok2 || len(fe) == 0 {
+			continue
+		}
+		args := call.Common().Args
+		if len(args) != len(h.Params) {
+			continue
+		}
+		old := vstrSubst
+		sub := map[ssa.Value]string{}
+		for k, v := range old {
+			sub[k] = v
+		}
+		for i, p := range h.Params {
+			sub[p] = vstr(args[i])
+		}
+		vstrSubst = sub
+		var hg []Guard
+		for _, r := range returnsOfGlobal(h, sentinel) {
+			hg = append(hg, guardsInto(r.Block())...)
+		}
+		vstrSubst = old
+		var ifs []*ssa.If
+		if iff := lastIf(fe[0].From); iff != nil {
+			ifs = append(ifs, iff)
+		}
+		if len(ifs) == 0 {
+			continue
+		}
+		for _, g := range hg {
+			out = append(out, Guard{Root: fe[0].From, FailDNF: g.FailDNF, PassEdges: se, Ifs: ifs})
+		}
 	}
 	return out
 }
